@@ -137,6 +137,17 @@ theorem hasFid_exists {s : State} {req : Json} {c : Nat} (h : unfetchOkB s req c
     exact ⟨p, params, fid, hp, hid, p, hp, rfl, g, hg, hi⟩
   · cases h
 
+/-- connection `c` has a fetch whose id equals `fid` -/
+def hasFidB (s : State) (c : Nat) (fid : Json) : Bool :=
+  s.peers.any (fun p => p.conn == c && p.fetches.any (fun g => idsEqual g.fid fid))
+
+theorem hasFid_of_bool {s : State} {c : Nat} {fid : Json} (h : hasFidB s c fid = true) : HasFid s c fid := by
+  unfold hasFidB at h
+  obtain ⟨p, hp, h'⟩ := List.any_eq_true.1 h
+  simp only [Bool.and_eq_true, beq_iff_eq] at h'
+  obtain ⟨g, hg, hi⟩ := List.any_eq_true.1 h'.2
+  exact ⟨p, hp, h'.1, g, hg, hi⟩
+
 /-- peer 1 sends the batch [fetch 1, unfetch 1, fetch 1] -/
 def opBatch : Op := .message 1 (some (.arr [.obj fetch1, .obj unfetch1, .obj fetch1])) {}
 
